@@ -38,11 +38,18 @@ Proof.
   destruct mode; cbn [ro_stale]; intro H; exists b; rewrite S; auto.
 Qed.
 
-Lemma loaded_is_disk : forall fl disk b, load_for_run fl disk = Some (Some b) -> disk = Some b.
+Lemma loaded_is_disk : forall fl disk b, load_for_run fl disk = Some (Some b) -> view disk = Some b.
 Proof.
   intros fl disk b. unfold load_for_run. destruct (f_baseline fl); [|discriminate].
   destruct disk as [b'|]; [intro H; inversion H; reflexivity|].
   destruct (f_update fl); discriminate.
+Qed.
+
+Lemma tighten_stable : forall b stale, stable_bl b -> stable_bl (tighten_baseline b stale).
+Proof.
+  intros b stale H k HK. apply In_keys_lookup in HK. destruct HK as [e HK].
+  rewrite lookup_tighten in HK. destruct (mem_key k stale); [discriminate|].
+  apply H. eapply lookup_In_keys; eauto.
 Qed.
 
 Lemma keys_after_apply : forall b R, map key_of (map (gf b) R) = map key_of R.
@@ -60,14 +67,14 @@ Definition okeys (ob : option baseline) : list key := match ob with Some b => ke
 
 Lemma stale_evaluated_resolved : forall fl R dirs disk k,
   In k (o_stale (check_step fl R dirs disk)) ->
-  In k (okeys disk) /\
+  In k (okeys (view disk)) /\
   In k (map key_of R ++ dirs) /\
   (forall r, In r R -> key_of r = k -> violating r = false).
 Proof.
   intros fl R dirs disk k. unfold check_step.
   destruct (load_for_run fl disk) as [loaded|] eqn:HL; cbn [o_stale]; [|contradiction].
   intro H. apply handle_stale in H. destruct H as [b [E H]]. subst loaded.
-  apply loaded_is_disk in HL. subst disk. cbn [okeys].
+  apply loaded_is_disk in HL. rewrite HL. cbn [okeys].
   rewrite apply_is_map in H. apply stale_spec in H. destruct H as [HK [HE HC]].
   unfold evaluated_of in HE. rewrite keys_after_apply in HE.
   rewrite current_failures_apply in HC.
@@ -77,11 +84,12 @@ Proof.
 Qed.
 
 (* ------------------------------------------------------------------ subset *)
-Lemma subset_entries : forall fl R dirs disk k e,
+Lemma subset_entries : forall fl R dirs disk,
   f_update fl = None ->
-  olookup k (o_disk (check_step fl R dirs disk)) = Some e -> olookup k disk = Some e.
+  o_disk (check_step fl R dirs disk) = disk \/
+  (forall k e, olookup k (o_disk (check_step fl R dirs disk)) = Some e -> olookup k (view disk) = Some e).
 Proof.
-  intros fl R dirs disk k e HU. unfold check_step.
+  intros fl R dirs disk HU. unfold check_step.
   destruct (load_for_run fl disk) as [loaded|] eqn:HL; cbn [o_disk]; auto.
   rewrite HU.
   set (rs1 := match loaded with Some b => apply_baseline_comparison R b | None => R end).
@@ -90,25 +98,27 @@ Proof.
   destruct loaded as [b|]; cbn [ro_saved ro_baseline]; auto.
   destruct (retain_evaluated _ _) as [|s ss]; cbn [ro_saved ro_baseline]; auto.
   destruct mode; cbn [ro_saved ro_baseline]; auto.
-  apply loaded_is_disk in HL. subst disk. cbn [olookup]. rewrite lookup_tighten.
+  right. intros k e. apply loaded_is_disk in HL. rewrite HL. cbn [olookup]. rewrite lookup_tighten.
   destruct (mem_key k (s :: ss)); [discriminate|auto].
 Qed.
 
 Lemma no_add_without_update : forall fl R dirs disk,
   f_update fl = None ->
   (disk = None -> o_disk (check_step fl R dirs disk) = None) /\
-  (forall k e, olookup k (o_disk (check_step fl R dirs disk)) = Some e -> olookup k disk = Some e).
+  (o_disk (check_step fl R dirs disk) = disk \/
+   forall k e, olookup k (o_disk (check_step fl R dirs disk)) = Some e -> olookup k (view disk) = Some e).
 Proof.
   intros fl R dirs disk HU. split.
   - intro E. subst disk. unfold check_step, load_for_run. rewrite HU.
     destruct (f_baseline fl); cbn [o_disk]; auto.
     rewrite ratchet_no_baseline. reflexivity.
-  - intros k e. apply subset_entries. assumption.
+  - apply subset_entries. assumption.
 Qed.
 
 (* an entry that disappears was reported stale (hence evaluated and resolved) *)
 Lemma removed_only_if_stale : forall fl R dirs disk k e,
   f_update fl = None -> o_exit (check_step fl R dirs disk) <> 2 ->
+  ostable disk ->
   olookup k disk = Some e ->
   olookup k (o_disk (check_step fl R dirs disk)) = None ->
   In k (o_stale (check_step fl R dirs disk)).
@@ -116,13 +126,14 @@ Proof.
   intros fl R dirs disk k e HU. unfold check_step.
   destruct (load_for_run fl disk) as [loaded|] eqn:HL; cbn [o_disk o_stale o_exit].
   2:{ intros H. exfalso. apply H. reflexivity. }
-  intros _. rewrite HU.
+  intros _ HS. rewrite HU.
   unfold handle_baseline_ratchet. cbv zeta.
   destruct (effective_ratchet _ _) as [mode|]; cbn [ro_saved ro_baseline ro_stale]; try congruence.
   destruct loaded as [b|]; cbn [ro_saved ro_baseline ro_stale]; try congruence.
   destruct (retain_evaluated _ _) as [|s ss]; cbn [ro_saved ro_baseline ro_stale]; try congruence.
   destruct mode; cbn [ro_saved ro_baseline ro_stale]; try congruence.
-  apply loaded_is_disk in HL. subst disk. cbn [olookup]. rewrite lookup_tighten.
+  apply loaded_is_disk in HL. rewrite view_stable in HL by assumption. subst disk.
+  cbn [olookup]. rewrite lookup_tighten.
   destruct (mem_key k (s :: ss)) eqn:M; [|congruence].
   intros _ _. apply mem_key_In. assumption.
 Qed.
@@ -144,39 +155,45 @@ Proof.
   rewrite C. reflexivity.
 Qed.
 
-Lemma check_step_auto : forall fl R dirs b,
+Lemma check_step_auto : forall fl R dirs b0,
   f_baseline fl = true -> f_update fl = None ->
   effective_ratchet (f_ratchet_cli fl) (f_ratchet_cfg fl) = Some RAuto ->
-  check_step fl R dirs (Some b) =
+  check_step fl R dirs (Some b0) =
+  let b := rekey b0 in
   let rs1 := map (gf b) R in
   let stale := retain_evaluated (evaluated_of rs1 dirs) (check_baseline_ratchet rs1 b) in
   mkOutcome rs1 (determine_exit_code rs1 (f_warn_only fl) (f_wae fl) false)
-            (match stale with [] => Some b | _ => Some (tighten_baseline b stale) end) stale.
+            (match stale with [] => Some b0 | _ => Some (tighten_baseline b stale) end) stale.
 Proof.
   intros fl R dirs b HB HU HM. unfold check_step, load_for_run. rewrite HB, HU.
   rewrite apply_is_map. unfold handle_baseline_ratchet. cbv zeta. rewrite HM.
   destruct (retain_evaluated _ _); reflexivity.
 Qed.
 
-Lemma auto_fixpoint : forall fl R dirs b,
+Lemma auto_fixpoint : forall fl R dirs b0,
   f_baseline fl = true -> f_update fl = None ->
   effective_ratchet (f_ratchet_cli fl) (f_ratchet_cfg fl) = Some RAuto ->
-  let out1 := check_step fl R dirs (Some b) in
+  stable_bl (rekey b0) ->
+  let out1 := check_step fl R dirs (Some b0) in
   let out2 := check_step fl R dirs (o_disk out1) in
-  o_stale out2 = [] /\ o_disk out2 = o_disk out1 /\ o_results out2 = o_results out1 /\ o_exit out2 = o_exit out1.
+  o_stale out2 = [] /\ o_disk out2 = o_disk out1 /\ o_results out2 = o_results out1 /\
+  o_exit out2 = o_exit out1.
 Proof.
-  intros fl R dirs b HB HU HM. cbv zeta.
-  rewrite (check_step_auto fl R dirs b HB HU HM). cbv zeta. cbn [o_disk o_stale o_results o_exit].
+  intros fl R dirs b0 HB HU HM HSt. cbv zeta.
+  rewrite (check_step_auto fl R dirs b0 HB HU HM). cbv zeta. cbn [o_disk o_stale o_results o_exit].
+  set (b := rekey b0) in *.
   set (ev := evaluated_of (map (gf b) R) dirs).
   destruct (retain_evaluated ev (check_baseline_ratchet (map (gf b) R) b)) as [|s ss] eqn:S.
-  - rewrite (check_step_auto fl R dirs b HB HU HM). cbv zeta. fold ev. rewrite S.
+  - rewrite (check_step_auto fl R dirs b0 HB HU HM). cbv zeta. fold b. fold ev. rewrite S.
     cbn [o_disk o_stale o_results o_exit]. auto.
   - set (st := s :: ss) in *. set (b1 := tighten_baseline b st).
     assert (HS : forall k, In k st -> In k (keys b) /\ In k ev /\ ~ In k (current_failures (map (gf b) R))).
     { intros k HI. apply stale_spec. rewrite S. assumption. }
     assert (G : map (gf b1) R = map (gf b) R).
     { apply gf_tighten. intros k HI. apply HS. assumption. }
-    rewrite (check_step_auto fl R dirs b1 HB HU HM). cbv zeta. rewrite G. fold ev.
+    assert (RK : rekey b1 = b1).
+    { apply rekey_stable. apply tighten_stable. assumption. }
+    rewrite (check_step_auto fl R dirs b1 HB HU HM). cbv zeta. rewrite RK, G. fold ev.
     assert (N : retain_evaluated ev (check_baseline_ratchet (map (gf b) R) b1) = []).
     { apply no_members_nil. intros k HI. apply stale_spec in HI. destruct HI as [HK [HE HC]].
       apply In_keys_lookup in HK. destruct HK as [e HK]. subst b1. rewrite lookup_tighten in HK.
@@ -193,7 +210,7 @@ Lemma strict_fails_only_for_resolved : forall fl R dirs disk,
   ((exists r, In r (o_results (check_step fl R dirs disk)) /\ is_failed r = true) \/
    (f_wae fl = true /\ exists r, In r R /\ is_warning r = true) \/
    (effective_ratchet (f_ratchet_cli fl) (f_ratchet_cfg fl) = Some RStrict /\
-    exists k, In k (okeys disk) /\ In k (map key_of R ++ dirs) /\
+    exists k, In k (okeys (view disk)) /\ In k (map key_of R ++ dirs) /\
               (forall r, In r R -> key_of r = k -> violating r = false))).
 Proof.
   intros fl R dirs disk H.
